@@ -358,3 +358,26 @@ Proof.
   vm_compute. repeat split; try reflexivity.
   intros t Ht. destruct t as [|[|t]]; [reflexivity|reflexivity|lia].
 Qed.
+
+(* ---------------- futex waits that return early (EINTR / spurious wake-up) ---------------- *)
+(* The theorems above cover the schedule choices 2 / 3 of a wait that would block.  Such a return
+   only sends the reader back to its re-check: script, read position, read_cursor, cursor and (in
+   read-once mode) the ownership of read_mutex are unchanged. *)
+Lemma g_early_return_rechecks s t ch s' l :
+  g_pc (g_thr s t) = GRWait -> g_cursor s = g_reg (g_thr s t) -> (ch = 2 \/ ch = 3)%nat ->
+  gstep s t ch = Some (s', l) ->
+  g_pc (g_thr s' t) = GRSeg1 /\ g_k (g_thr s' t) = g_k (g_thr s t) /\ g_i (g_thr s' t) = g_i (g_thr s t) /\
+  g_rcur s' = g_rcur s /\ g_cursor s' = g_cursor s /\ g_rm s' = g_rm s /\
+  (forall u, u <> t -> g_thr s' u = g_thr s u).
+Proof.
+  intros Epc Eq Hch Hs. unfold gstep in Hs.
+  destruct (Nat.leb (g_n s) t); [discriminate|]. rewrite Epc in Hs. cbv zeta in Hs.
+  rewrite Eq, Z.eqb_refl in Hs.
+  destruct Hch as [-> | ->]; simpl in Hs; inv_some Hs; simpl; rewrite upd_same;
+    (repeat split; try reflexivity; intros u Hu; apply upd_other; assumption).
+Qed.
+
+Example g_interrupted_reader_rechecks_and_sleeps :
+  let s := exec gsys gstep g_demo [(0,0);(0,0);(0,0);(0,2); (0,0);(0,0);(0,0);(0,3); (0,0);(0,0);(0,0);(0,0)]%nat in
+  g_pc (g_thr s 0%nat) = GRBlocked /\ g_k (g_thr s 0%nat) = 1%nat /\ g_i (g_thr s 0%nat) = 0.
+Proof. vm_compute. repeat split; reflexivity. Qed.
